@@ -79,15 +79,24 @@ def build0(c):
         if all(float(x).is_integer() and abs(x) < 2 ** 40 for x in lo + hi):
             return I(np.array(lo, dtype=np.int64), np.array(hi, dtype=np.int64))
         return I(np.array(lo, dtype=float), np.array(hi, dtype=float))
+    dt = c.get("dtype")
     if f == "S":
+        if dt == "pyint":              # python ints (possibly beyond 2**53)
+            return I(int(lo[0]), int(hi[0]))
+        if dt == "fraction":
+            from fractions import Fraction
+            return I(Fraction(lo[0]), Fraction(hi[0]))
+        if dt in ("float32", "float16", "longdouble"):      # numpy scalars of another floating type
+            return I(getattr(np, dt)(lo[0]), getattr(np, dt)(hi[0]))
         return I(lo[0], hi[0])
+    adt = getattr(np, dt) if dt in ("float32", "float16", "longdouble") else float
     if f == "S1":
-        return I(np.array(lo[:1], dtype=float), np.array(hi[:1], dtype=float))
+        return I(np.array(lo[:1], dtype=adt), np.array(hi[:1], dtype=adt))
     if f == "A":
-        return I(np.array(lo, dtype=float), np.array(hi, dtype=float))
+        return I(np.array(lo, dtype=adt), np.array(hi, dtype=adt))
     if f == "A2":
         n = len(lo) // 2
-        return I(np.array(lo, dtype=float).reshape(2, n), np.array(hi, dtype=float).reshape(2, n))
+        return I(np.array(lo, dtype=adt).reshape(2, n), np.array(hi, dtype=adt).reshape(2, n))
     raise ValueError(f)
 
 
@@ -145,14 +154,50 @@ def canon(r):
 MUTATED = [None]      # set by run_impl: description of an operand changed in place by the last call
 
 
-def run_impl(c):
+ALIASED = [None]      # set by run_impl: the result shares memory with the operand / is the operand
+
+
+class _State:
+    """floating-point error handling of the process for one call; always restored"""
+    def __init__(self, state):
+        self.state = state
+    def __enter__(self):
+        import warnings
+        if self.state == "errraise":
+            self.cm = [np.errstate(all="raise")]
+        elif self.state == "warnerror":
+            w = warnings.catch_warnings()
+            self.cm = [w, np.errstate(divide="warn", over="warn", invalid="warn", under="ignore")]
+        else:
+            self.cm = [np.errstate(all="ignore")]
+        for m in self.cm:
+            m.__enter__()
+        if self.state == "warnerror":
+            warnings.simplefilter("error")
+        return self
+    def __exit__(self, *a):
+        for m in reversed(self.cm):
+            m.__exit__(*a)
+        return False
+
+
+def run_impl(c, state=None):
     MUTATED[0] = None
+    ALIASED[0] = None
     X = None
     try:
         with np.errstate(all="ignore"):
             X = build(c)
             lo0, hi0 = np.array(X.lo, copy=True), np.array(X.hi, copy=True)
-            r = canon(call(c, X))
+        with _State(state):
+            res = call(c, X)
+        r = canon(res)
+        I = _mods()[0]
+        if isinstance(res, I):
+            if res is X:
+                ALIASED[0] = "the result is the operand object itself"
+            elif any(np.shares_memory(u, v) for u in (res.lo, res.hi) for v in (X.lo, X.hi)):
+                ALIASED[0] = "the result shares memory with the operand (changing one changes the other)"
     except BaseException as e:  # noqa
         r = ("err", err_kind(e))
     if X is not None:
@@ -460,7 +505,8 @@ def elements(c):
 
 def scalar_case(c, lo, hi):
     d = dict(c)
-    d.update(form="S", lo=[lo], hi=[hi], entry=("method" if c["entry"] in ("ufunc", "vec") else c["entry"]), prep=None)
+    d.update(form="S", lo=[lo], hi=[hi], entry=("method" if c["entry"] in ("ufunc", "vec") else c["entry"]), prep=None,
+             dtype=None, state=None)
     return d
 
 
@@ -521,6 +567,7 @@ def features(c, symptom):
     return {"fn": c["fn"], "form": c["form"], "entry": c["entry"], "symptom": symptom,
             "k": (int(c["k"]) if c["k"] is not None else 0), "n": len(c["lo"]), "range": pow_out_of_range(c),
             "extreme": any(abs(x) > 354.0 for x in c["lo"] + c["hi"]), "prep": c.get("prep") or "none",
+            "dtype": c.get("dtype") or "float64", "state": c.get("state") or "default",
             "call": "Interval elementary function"}
 
 
@@ -896,6 +943,57 @@ def gen_cases(ctx):
             c["form"] = rng.choice(["AL", "AI"])
         if rng.random() < 0.12:
             c["prep"] = rng.choice(["copy", "deepcopy", "pickle", "rebuilt", "getitem"])
+        # numeric types: endpoint arrays / scalars of another floating type (the values are first rounded to that type, so
+        # the float64 computation of the same values is the reference), python ints, Fractions
+        r = rng.random()
+        if c["form"] in ("A", "A2", "S1") and r < 0.16:
+            dt = rng.choice(["float32", "float32", "float16", "longdouble"])
+            if dt == "longdouble":
+                c["dtype"] = dt
+            else:
+                with np.errstate(all="ignore"):
+                    lo2 = [float(getattr(np, dt)(x)) for x in c["lo"]]
+                    hi2 = [float(getattr(np, dt)(x)) for x in c["hi"]]
+                if all(math.isfinite(v) for v in lo2 + hi2) and all((a == 0) == (b == 0) for a, b in zip(c["lo"] + c["hi"], lo2 + hi2)):
+                    c["lo"], c["hi"], c["dtype"] = lo2, hi2, dt
+        elif c["form"] == "S" and c["entry"] != "vec" and r < 0.06:
+            dt = rng.choice(["float32", "longdouble", "fraction", "pyint"])
+            if dt == "pyint":
+                if all(float(x).is_integer() for x in c["lo"] + c["hi"]):
+                    c["dtype"] = dt
+            elif dt == "float32":
+                with np.errstate(all="ignore"):
+                    lo2, hi2 = [float(np.float32(c["lo"][0]))], [float(np.float32(c["hi"][0]))]
+                if all(math.isfinite(v) for v in lo2 + hi2) and (lo2[0] == 0) == (c["lo"][0] == 0) and (hi2[0] == 0) == (c["hi"][0] == 0):
+                    c["lo"], c["hi"], c["dtype"] = lo2, hi2, dt
+            else:
+                c["dtype"] = dt
+        # process-wide floating-point error handling: the same call under np.errstate(all='raise') / warnings as errors
+        if rng.random() < 0.10:
+            c["state"] = rng.choice(["errraise", "warnerror"])
+    # python ints beyond 2**53 as endpoints
+    for lo, hi in [(2 ** 53 + 2, 2 ** 60), (-(2 ** 62), 2 ** 55), (2 ** 60, 2 ** 60)]:
+        for fn in ("abs", "sqrt", "log"):
+            if fn == "abs" or lo > 0:
+                d = mk("numeric-types", fn, "S", "method", [float(lo)], [float(hi)])
+                d["dtype"] = "pyint"
+                cases.append(d)
+    # fixed float32 / float16 array cases where single precision would differ visibly
+    for fn, lo, hi in [("exp", [89.0, 1.0], [90.0, 2.0]), ("log", [0.1, 3.0], [0.2, 7.0]), ("sqrt", [2.0, 3.0], [3.0, 5.0]),
+                       ("sin", [1.0, 2.0], [2.0, 3.0]), ("cos", [0.5, 2.0], [1.0, 3.0]), ("tan", [0.1, 2.0], [0.5, 3.0]),
+                       ("sig", [-1.0, 0.5], [2.0, 3.0]), ("tanh", [-1.0, 0.5], [2.0, 3.0]), ("atanh", [-1.0, 0.5], [2.0, 3.0]),
+                       ("abs", [-3.0, 0.1], [0.2, 0.3])]:
+        for dt in ("float32", "float16"):
+            with np.errstate(all="ignore"):
+                lo2 = [float(getattr(np, dt)(x)) for x in lo]
+                hi2 = [float(getattr(np, dt)(x)) for x in hi]
+            d = mk("numeric-types", fn, "A", "method", lo2, hi2)
+            d["dtype"] = dt
+            cases.append(d)
+    for k in (-3, -2, 2, 3, 5):
+        d = mk("numeric-types", "pow", "A", "method", [float(np.float32(1.1)), float(np.float32(-2.3))], [float(np.float32(1.7)), float(np.float32(-0.3))], k, "int")
+        d["dtype"] = "float32"
+        cases.append(d)
     return cases
 
 
@@ -905,7 +1003,7 @@ def nontrivial(c):
 
 
 def case_json(c, impl=None, model=None):
-    d = {k: c.get(k) for k in ("stream", "fn", "form", "entry", "lo", "hi", "k", "kind", "prep")}
+    d = {k: c.get(k) for k in ("stream", "fn", "form", "entry", "lo", "hi", "k", "kind", "prep", "dtype", "state")}
     d["lo_hex"] = [float(x).hex() for x in c["lo"]]
     d["hi_hex"] = [float(x).hex() for x in c["hi"]]
     if impl is not None:
@@ -944,6 +1042,11 @@ def run(ctx: core.Check, cases=None):
                 "and 2; compositions sqrt(X**k); all grid and array streams again at scales 2^-30, 2^-52, 2^-70, 1e-19, 1e-170, 2^36, "
                 "1e150; rank-2 operands in Fortran order, as transposed views and as rank 3, python lists, integer dtype; operands "
                 "copied / deep-copied / pickled / rebuilt from lo, hi / sliced before use. "
+                "Numeric types: endpoint arrays of dtype float32 / float16 / longdouble (values first rounded to that type; the "
+                "float64 computation of the same values is the reference), numpy scalars of those types, python ints beyond 2**53, "
+                "Fractions.  Process state: 10% of the cases are run again under np.errstate(all='raise') or with warnings as errors "
+                "(same value or an escalated floating-point error, never a different value).  After every call the result must not "
+                "share memory with (or be) the operand. "
                 "A case is non-trivial unless it is the single point 0 or 1; distinctness on (fn,form,entry,lo,hi,k,kind).")
     ctx.assumptions = [
         "binary64 rounding is not modelled; numpy's exp/log/sqrt/sin/cos/tan values and the rounded width and "
@@ -969,7 +1072,7 @@ def run(ctx: core.Check, cases=None):
         cases = gen_cases(ctx)
     replies = core.model_batch("C05", [wire(c) for c in cases])
     for c, rep in zip(cases, replies):
-        key = (c["fn"], c["form"], c["entry"], tuple(c["lo"]), tuple(c["hi"]), c["k"], c["kind"], c.get("prep"))
+        key = (c["fn"], c["form"], c["entry"], tuple(c["lo"]), tuple(c["hi"]), c["k"], c["kind"], c.get("prep"), c.get("dtype"), c.get("state"))
         ctx.count(key, nontrivial(c), c["stream"])
         impl = run_impl(c)
         mutated = MUTATED[0]
@@ -985,9 +1088,24 @@ def run(ctx: core.Check, cases=None):
         ctx.bump(f"fn:{c['fn']}")
         ctx.bump(f"form:{c['form']}")
         ctx.bump("impl:" + (impl[1] if impl[0] == "err" else "value"))
+        aliased = ALIASED[0]
         found = oracle(c, impl)
         if mutated and not found:
             found = [("operand-mutated", mutated)]
+        if aliased and not found:
+            found = [("result-aliases-operand", aliased)]
+        if c.get("state") and not found:
+            alt = run_impl(c, state=c["state"])
+            ctx.bump("state:" + c["state"] + (":raises" if alt[0] == "err" and impl[0] == "ok" else ":same"))
+            if alt[0] == "ok":
+                same = impl[0] == "ok" and len(alt[1]) == len(impl[1]) and all(
+                    (x == y) or (math.isnan(x) and math.isnan(y)) for x, y in zip(alt[1] + alt[2], impl[1] + impl[2]))
+                if not same:
+                    found = [("state-dependent", f"under {c['state']} the call returns {alt}, under the default floating-point "
+                                                 f"error handling {impl}")]
+            elif impl[0] == "ok" and alt[1] != "Other":
+                found = [("state-dependent", f"under {c['state']} the call raises {alt[1]} (not an escalated floating-point "
+                                             f"warning), under the default settings it returns {impl}")]
         for sym, text in found[:1]:
             ctx.fail(features(c, sym), case_json(c, impl=impl), f"{c['fn']} {c['form']}/{c['entry']}: {text}")
         if len(ctx.samples) < 6 and c["stream"] in ("trig-array", "pow-array", "mono-random", "trig-pairs") and ctx.rng.random() < 0.01:
@@ -1005,7 +1123,7 @@ def replay(obj):
     if "fn" not in c:
         print(core.json.dumps(obj, indent=1))
         return 0
-    c = {k: c.get(k) for k in ("stream", "fn", "form", "entry", "lo", "hi", "k", "kind", "prep")}
+    c = {k: c.get(k) for k in ("stream", "fn", "form", "entry", "lo", "hi", "k", "kind", "prep", "dtype", "state")}
     if "lo_hex" in obj.get("case", {}):
         c["lo"] = [float.fromhex(h) for h in obj["case"]["lo_hex"]]
         c["hi"] = [float.fromhex(h) for h in obj["case"]["hi_hex"]]
